@@ -54,7 +54,7 @@ Settle(x) ==
 
 Init ==
   \E cfg \in Cfgs :
-    LET x == CallOpen(<<>>, cfg) IN
+    LET x == CallOpen(Down, cfg) IN
     /\ s = x.s
     /\ mon = FoldMon(MonStep(MonInit, ResetEv), x.evs, 1)
     /\ g = [G0 EXCEPT !.log = <<[a |-> "open", cfg |-> cfg]>>]
@@ -106,7 +106,7 @@ AReopen ==
   /\ s.up /\ g.reopens < MaxReopen /\ s.pend = <<>> /\ WIdle(s)
   /\ \E cfg \in Cfgs :
        LET d == CallDrop(s)
-           o == CallOpen(d.s.fs, cfg)
+           o == CallOpen(d.s, cfg)
            y == Settle([s |-> o.s, evs |-> d.evs \o o.evs])
        IN Take(y, <<[a |-> "reopen", cfg |-> cfg]>> \o y.steps, [g EXCEPT !.reopens = @ + 1])
 
@@ -116,7 +116,7 @@ ACrash ==
      \E img \in [1..Len(L) -> UNION {ImageChoices(L[j]) : j \in 1..Len(L)}] :
        /\ \A j \in 1..Len(L) : img[j] \in ImageChoices(L[j])
        /\ \E cfg \in Cfgs :
-            LET fs1 == ApplyImage(s.fs, img)
+            LET fs1 == [Down EXCEPT !.fs = ApplyImage(s.fs, img), !.inst = s.inst]
                 cev == [e |-> "crash", kind |-> "power", img |-> ImgDesc(s.fs, img), seq |-> 0]
                 o == CallOpen(fs1, cfg)
                 y == IF o.res = "ok" THEN Settle([s |-> o.s, evs |-> <<cev>> \o o.evs])
